@@ -13,6 +13,11 @@ type Epoch struct {
 	id    int
 	merge []epochArm
 	cache map[string]*Term
+	// partial havoc: classes matching one of the havoc prefixes are fresh in this epoch, every
+	// other class is the parent's
+	parent *Epoch
+	havoc  []string
+	now    *Term // allocation clock when the epoch began (nil: the epoch's own g:now variable)
 }
 
 type epochArm struct {
@@ -22,6 +27,7 @@ type epochArm struct {
 
 type State struct {
 	reach *Term
+	pc    *Term // branch decisions only (nil: true); reach = pc & facts assumed along the path
 	heap  map[string]*Term
 	epoch *Epoch
 	cells map[cellKey][]*Term
@@ -34,7 +40,7 @@ func (x *Exec) newEpoch() *Epoch {
 }
 
 func (st *State) clone() *State {
-	n := &State{reach: st.reach, epoch: st.epoch, heap: make(map[string]*Term, len(st.heap)), cells: make(map[cellKey][]*Term, len(st.cells))}
+	n := &State{reach: st.reach, pc: st.pc, epoch: st.epoch, heap: make(map[string]*Term, len(st.heap)), cells: make(map[cellKey][]*Term, len(st.cells))}
 	for k, v := range st.heap {
 		n.heap[k] = v
 	}
@@ -49,8 +55,18 @@ func (x *Exec) epochInit(e *Epoch, class string, s *Sort) *Term {
 		return t
 	}
 	var t *Term
+	if e.parent != nil && !classMatches(class, e.havoc) {
+		t = x.epochInit(e.parent, class, s)
+		e.cache[class] = t
+		return t
+	}
 	if len(e.merge) == 0 {
 		t = x.tb.Var(fmt.Sprintf("H%d.%s", e.id, class), s)
+		if class != "g:now" {
+			x.baseNow[t.ID] = x.epochNow(e)
+		} else {
+			x.facts = append(x.facts, x.tb.ULe(x.tb.BVInt(1, 64), t), x.tb.ULe(t, x.tb.BVInt(1<<32, 64)))
+		}
 	} else {
 		t = x.epochInit(e.merge[len(e.merge)-1].from, class, s)
 		for i := len(e.merge) - 2; i >= 0; i-- {
@@ -59,6 +75,24 @@ func (x *Exec) epochInit(e *Epoch, class string, s *Sort) *Term {
 	}
 	e.cache[class] = t
 	return t
+}
+
+// epochNow: the allocation clock at the beginning of epoch e; every reference stored in the
+// epoch's initial heap denotes an object born before it.
+func (x *Exec) epochNow(e *Epoch) *Term {
+	if e.now != nil {
+		return e.now
+	}
+	return x.epochInit(e, "g:now", x.tb.BV(64))
+}
+
+func classMatches(c string, prefixes []string) bool {
+	for _, p := range prefixes {
+		if c == p || strings.HasPrefix(c, p+"#") || strings.HasPrefix(c, p+".") {
+			return true
+		}
+	}
+	return false
 }
 
 func isGhostClass(c string) bool { return strings.HasPrefix(c, "g:") }
@@ -81,10 +115,12 @@ func (x *Exec) heapSet(st *State, class string, t *Term) {
 
 // havocAll forgets every non-ghost heap class (new epoch) but keeps ghost classes.
 func (x *Exec) havocAll(st *State) {
+	x.bumpNow(st)
 	old := st.heap
 	oldEpoch := st.epoch
 	st.heap = map[string]*Term{}
 	st.epoch = x.newEpoch()
+	st.epoch.now = x.now(&State{heap: old, epoch: oldEpoch})
 	// ghost classes survive: materialise every known ghost class
 	for c, s := range x.classSort {
 		if isGhostClass(c) {
@@ -99,7 +135,11 @@ func (x *Exec) havocAll(st *State) {
 
 func (x *Exec) havocClass(st *State, class string, s *Sort) {
 	x.classSort[class] = s
-	st.heap[class] = x.tb.Fresh("Hh."+class, s)
+	t := x.tb.Fresh("Hh."+class, s)
+	if class != "g:now" {
+		x.baseNow[t.ID] = x.now(st)
+	}
+	st.heap[class] = t
 }
 
 // mergeStates merges states of mutually exclusive paths.
@@ -122,7 +162,14 @@ func (x *Exec) mergeStates(sts []*State) *State {
 		rs = append(rs, s.reach)
 	}
 	out.reach = x.factoredOr(rs)
-	own := x.ownConds(rs)
+	var pcs []*Term
+	for _, s := range live {
+		pcs = append(pcs, x.pcOf(s))
+	}
+	out.pc = x.factoredOr(pcs)
+	// selectors: the branch decisions alone tell the merged paths apart (deterministic control
+	// flow); facts assumed along a path (callee postconditions, invariants) stay out of them
+	own := x.ownConds(pcs)
 	sameEpoch := true
 	for _, s := range live[1:] {
 		if s.epoch != live[0].epoch {
@@ -271,6 +318,19 @@ func (x *Exec) assume(st *State, c *Term) {
 	st.reach = x.tb.And(st.reach, c)
 }
 
+// branch: the path takes a branch whose condition is c.
+func (x *Exec) branch(st *State, c *Term) {
+	st.reach = x.tb.And(st.reach, c)
+	st.pc = x.tb.And(x.pcOf(st), c)
+}
+
+func (x *Exec) pcOf(st *State) *Term {
+	if st.pc == nil {
+		return x.tb.True
+	}
+	return st.pc
+}
+
 // ---------- memory access
 
 // refOK is the obligation condition for dereferencing ref.
@@ -308,6 +368,9 @@ func (x *Exec) addRefAxioms(name string, r *Term, args []*Term) {
 	x.facts = append(x.facts, x.nonNil(r))
 	for i, a := range args {
 		x.facts = append(x.facts, x.tb.Eq(x.tb.UF(fmt.Sprintf("parent%d", i), bv64, r), a))
+	}
+	if len(args) > 0 {
+		x.facts = append(x.facts, x.tb.Eq(x.birth(r), x.birth(args[0])))
 	}
 }
 
